@@ -30,6 +30,7 @@ from .model import dotted, kwarg, const, NOCONST
 
 A_ = sp.Symbol("a", positive=True)
 N_ = sp.Symbol("N", integer=True, positive=True)
+R_ = sp.Symbol("R", integer=True, positive=True)
 C_ = sp.Symbol("c", real=True, nonzero=True)      # caller's scalar
 COL = sp.Symbol("COL", positive=True)             # the column being rescaled
 
@@ -140,6 +141,8 @@ class Interp:
                 return st.w
             if e.attr == "ndims" and self.is_self(e.value, st):
                 return N_
+            if e.attr == "ncomponents" and self.is_self(e.value, st):
+                return R_         # the number of components: an independent positive integer (a root taken per COMPONENT instead of per MODE)
             raise Unmodelled(ast.unparse(e))
         if isinstance(e, ast.Subscript):
             if self.factor_ref(e, st) is not None:
